@@ -6,7 +6,7 @@ MAIN = "c20"
 MODULES = ["geom", "pos", "stubs", "step", "c20"]
 ACCESS = None
 DUMP = []
-PARALLEL = 4
+PARALLEL = 16
 
 GEOM_STUBS = [
     ("crate::chess::movegen::tables::magics::rook_attacks", "stubs::s_rook"),
@@ -21,7 +21,7 @@ META = {
     "functions_encoded": ["engine::see::{see, piece_value}", "chess::movegen::attackers::all_attackers_of", "chess::board::Board::{piece_at, occupancy, occupancy_for, pieces_of_kind, "
                           "all_diagonal_sliders, all_orthogonal_sliders}", "engine::eval::Eval arithmetic"],
     "stubs": ["six table look-ups -> geometry (C07)"],
-    "bounds": ["any valid position with at most N men (quick 5, thorough 7), any legal non-en-passant capture incl. capturing promotions; exchange loop unwound N+1"],
+    "bounds": ["any valid position with at most N men (quick 6, thorough 7), any legal non-en-passant capture incl. capturing promotions; exchange loop unwound N+1", "case split (one SAT query each): target square x side to move; quick: d5 + 2 seeded squares + d4 for black; thorough: all 64 x 2"],
     "outside": ["positions with more men than the bound (longer exchanges)", "en-passant captures (excluded by the property)"],
     "assumptions": ["swap-list oracle in harness/verif/c20.rs uses the same piece values (100/300/300/500/900/10000)"],
     "trusted_base": ["kani 0.68.0", "cbmc 6.11.0", "cadical", "C07"],
@@ -37,21 +37,35 @@ MANIFEST = {
 }
 
 
-def inst(kind, n):
-    name = f"c20_{kind}_m{n}"
+SQN = lambda i: "abcdefgh"[i % 8] + str(i // 8 + 1)
+POOL = [35, 28, 0, 7, 56, 63, 4, 60, 24, 31, 18, 45, 9, 54, 3, 59]  # d5 e4 corners e1 e8 a4 h4 c3 f6 b2 g7 d1 d8
+
+
+def inst(kind, n, dst, side):
+    name = f"c20_{kind}_m{n}_{SQN(dst)}_{'wb'[side]}"
     attrs = ["#[kani::proof]", f"#[kani::unwind({max(n, 7) + 2})]"] + [f"#[kani::stub({a}, {b})]" for a, b in GEOM_STUBS]
     fn = {"basic": "basic", "swap": "versus_swap_list"}[kind]
-    return name, "\n".join(attrs) + f"\npub fn {name}() {{ c20::{fn}({n}); }}\n"
+    return name, "\n".join(attrs) + f"\npub fn {name}() {{ c20::{fn}({n}, {dst}, {side}); }}\n"
 
 
 def jobs(tier, seed):
-    n = 7 if tier == "thorough" else 5
+    import os, random
+    rnd = random.Random(seed)
+    n = int(os.environ.get("C20_MEN", 7 if tier == "thorough" else 6))
     t = 10000 if tier == "thorough" else 2400
+    if tier == "thorough":
+        cases = [(d, s) for d in range(64) for s in (0, 1)]
+    else:
+        sq = [35] + rnd.sample(POOL[1:], 2)
+        cases = [(d, rnd.randrange(2)) for d in sq] + [(35 ^ 56, 1)]
+    if os.environ.get("C20_CASES"):
+        cases = [(int(x.split(":")[0]), int(x.split(":")[1])) for x in os.environ["C20_CASES"].split(",")]
     js = []
-    for kind in ("basic", "swap"):
-        name, src = inst(kind, n)
-        js.append(Job(name, f"SEE {kind}: all positions of <= {n} men, all non-ep captures", gen=src, timeout=t, mem_gb=24, checks="functional", witness=False,
-                      params={"max_men": n}, min_covers=2))
+    for d, s_ in cases:
+        for kind in ("basic", "swap"):
+            name, src = inst(kind, n, d, s_)
+            js.append(Job(name, f"SEE {kind}: all positions of <= {n} men, all non-ep captures on {SQN(d)} by {'white' if s_ == 0 else 'black'}", gen=src, timeout=t, mem_gb=24,
+                          checks="functional", witness=False, params={"max_men": n, "target": SQN(d), "white_to_move": s_ == 0}, min_covers=2))
     return js
 
 
